@@ -683,7 +683,12 @@ func (s *PersistentHybridIndex) Flush() error {
 		s.mu.RUnlock()
 		return fmt.Errorf("storage is closed")
 	}
+	// Close waits for this flush like it waits for the background workers: it must not
+	// release the directory lock while segment files are still being written
+	// (registered under the lock that guards closed, so it cannot race with Close's Wait)
+	s.wg.Add(1)
 	s.mu.RUnlock()
+	defer s.wg.Done()
 
 	// Freeze the writable memtable too: everything added before this call must be
 	// on disk when it returns
